@@ -299,18 +299,23 @@ PROPS["C03"] = {
     "functions": [
         "barter::engine::action::send_requests::SendRequests::send_request for Engine<(), Recorder, Links, Script, Gate> (harness types for state / links / strategy / risk)",
         "barter::engine::execution_tx::MultiExchangeTxMap::<RecordingTx>::{from_iter, find} (the real link table, with a link-less exchange in front)",
+        "barter::engine::Engine::process for Engine<LiveClock, EngineState, Links, Probe, DefaultRiskManager> on TradingStateUpdate(Disabled) and Shutdown events "
+        "(+ update_from_trading_state_update, TradingState::update, EngineAudit construction)",
         "barter::engine::state::order::in_flight_recorder::InFlightRequestRecorder for EngineState::{record_in_flight_opens, record_in_flight_open} "
         "+ InstrumentStates::instrument_index_mut + Orders::record_in_flight_open",
     ],
     "bounds": {
         "quick": "send_request: one open request with a symbolic exchange index in {0, 1, 2 = unknown} against 2 execution links with a SYMBOLIC fault "
-                 "pattern each {healthy, closed, unhealthy, missing}; in-flight routing: literal 2-instrument engine state, request for a symbolic instrument; unwind 10",
-        "thorough": "same as quick",
+                 "pattern each {healthy, closed, unhealthy, missing}; in-flight routing: literal 2-instrument engine state, concrete target instrument per harness; "
+                 "gating: Engine::process(TradingStateUpdate(Disabled)) while enabled on a literal 1-instrument engine with a counting strategy; unwind 10-12",
+        "thorough": "quick + Engine::process(TradingStateUpdate(Disabled)) while disabled and Engine::process(Shutdown) while enabled",
     },
     "outside": ["the batch actions send_requests / generate_algo_orders / close_positions / cancel_orders (partition into sent / errors, refused requests, "
                 "record-in-flight of exactly the sent ones): attempted in drafts/c03_requests_full.rs; one request through send_requests already exhausts 20 GB "
                 "(Vec<(request, EngineError)> of solver-unknown length; every EngineError owns a String whose deallocation CBMC explores on unknown pointers)",
-                "Engine::process gating on TradingState, commands, early return on Shutdown / fatal errors",
+                "Engine::process on any event that ends with trading ENABLED (it then calls the batch action generate_algo_orders: no result in 30 min even for a "
+                "strategy that generates nothing), i.e. 're-enabling resumes generation on that very event'; market / account events through Engine::process while "
+                "disabled (no result in 25 min; the state update itself is checked at the EngineState entry point under C15 / C09); commands",
                 "per-order in-flight state transitions (checked under C01: record_in_flight_open / record_in_flight_cancel on every pre-state)"],
     "assumptions": ["harness types: recording Tx whose send() fails per the fault pattern, link table implementing ExecutionTxMap"],
     "tiers": {
@@ -350,8 +355,9 @@ PROPS["C19"] = {
 LEVEL = {
  "C03": ("The single-request delivery primitive (SendRequests::send_request) under a symbolic per-exchange link fault pattern and a symbolic "
          "(possibly unknown) exchange index: Ok <=> delivered exactly once to exactly that exchange's link; gone / missing link => fatal error and no "
-         "delivery; unhealthy link => recoverable error and no delivery. Plus: EngineState records an in-flight open on exactly the named instrument.",
-         "Kernel-level only: the batch actions, risk refusal reporting and trading-state gating are outside the claim (they did not fit)."),
+         "delivery; unhealthy link => recoverable error and no delivery; the real positional link table with a link-less exchange. EngineState records an "
+         "in-flight open on exactly the named instrument. Engine::process: disabling trading notifies the strategy once and generates nothing; shutdown generates nothing.",
+         "Kernel-level: the batch actions, risk refusal reporting and the enabled half of the trading-state gating are outside the claim (they did not fit)."),
  "C19": ("The two per-item kernels the commands are built from: Order::to_request_cancel (none iff already being cancelled; client order id always, exchange "
          "order id iff known) and build_ioc_market_order_to_close_position (opposite side, equal quantity, IOC market order, same instrument).",
          "Kernel-level only: the instrument filter and the engine action are outside the claim."),
